@@ -150,6 +150,7 @@ def _mk(cid, r, blk, **f):
     if via != "direct":
         d["kinds"] = ["vec"] * len(sizes)
     d["via"] = via
+    d["runs"] = int(f.get("runs") or _pick(r, [1, 2], [0.88, 0.12]))
     return d
 
 
@@ -183,6 +184,8 @@ CORNERS = [
     dict(name="slices-of-one-base-signal", via="slices", sizes=[2, 3, 1]),
     dict(name="strided-slices-of-one-base-signal", via="strided", sizes=[3, 3]),
     dict(name="strided-slices-unequal", via="strided", sizes=[3, 2]),
+    dict(name="restart-after-convergence", hist="conv", runs=2),
+    dict(name="restart-after-short-run", hist="short", runs=2),
     dict(name="long-history-small-move", obj="invsum", hist="conv", move=0.01, bounds="ss", sc=1.0),
 ]
 
@@ -408,11 +411,12 @@ def run_case(case, ctx):
     cum = np.concatenate([[0], np.cumsum(sizes)]).astype(int)
     sc = float(case["sc"])
     seen = set()
+    cur = {"run": 0}
 
     def violate(mech, **w):
         if mech not in seen:
             seen.add(mech)
-            ctx.violate(mech, case_name=case["name"], **w)
+            ctx.violate(mech, case_name=case["name"], run=cur["run"], **w)
 
     # ---------------------------------------------------------------- bounds, move, start design
     bk = case["bounds"]
@@ -552,7 +556,6 @@ def run_case(case, ctx):
          "above": shi + 0.1 * R + 0.1 * sc, "below": slo - 0.1 * R - 0.01 * sc}[vk]
     if V is not None:
         kw["maxvol"] = V
-    Vt = float(np.sum(x0)) if V is None else V
     hk = case["hist"]
     tolx, tolf, maxit = 1e-4, 1e-4, 100
     budget = 3 * int(math.ceil(float(np.max(hi - lo)) / move)) + 30
@@ -582,169 +585,184 @@ def run_case(case, ctx):
         move = 0.2
     variables = {"list": sigs, "tuple": tuple(sigs), "single": sigs[0]}[case["cont"]]
 
-    # ---------------------------------------------------------------- the run
-    pym.minimize_oc(net, variables, fsig, **kw)
-    ctx.count("runs")
-    final = [np.array(s.state, dtype=float, copy=True) for s in sigs]
-    nresp = len(log)
-    if nresp == 0:
-        violate("network-never-evaluated")
-        return {"key": "none", "nontrivial": False, "obs": {}}
+    # ---------------------------------------------------------------- the run(s); a second run restarts from the
+    # design the first one left in the signals (states are 1-D arrays then)
+    over_max = None
+    tot = {"responses": 0, "designs": 0, "vol_judged": 0, "final_unrecorded": 0}
+    for irun in range(int(case.get("runs", 1))):
+        del log[:]
+        cur["run"] = irun
+        xstart = np.concatenate([np.ravel(np.asarray(s.state, dtype=float)) for s in sigs]).copy()
+        Vt = float(np.sum(xstart)) if V is None else V
+        pym.minimize_oc(net, variables, fsig, **kw)
+        ctx.count("runs")
+        final = [np.array(s.state, dtype=float, copy=True) for s in sigs]
+        nresp = len(log)
+        if nresp == 0:
+            violate("network-never-evaluated")
+            return {"key": "none", "nontrivial": False, "obs": {}}
 
-    # ---------------------------------------------------------------- write-back: sizes
-    rec_all = log + [final]
-    for k, rec in enumerate(rec_all):
-        for i, st in enumerate(rec):
-            ctx.count("writeback_slices_compared")
-            if st.size != sizes[i]:
-                violate("write-back/signal-size-changed", response=k, signal=i, size=int(st.size), expected=sizes[i],
-                        at_return=k == nresp)
-    if any(m.startswith("write-back/signal-size") for m in seen):
-        return {"key": "size-changed", "nontrivial": True, "obs": {"responses": nresp}}
-    D = [np.concatenate([np.ravel(st) for st in rec]) for rec in log]
-    xf = np.concatenate([np.ravel(st) for st in final])
-    extra = not np.array_equal(xf, D[-1])
-    if extra:
-        D.append(xf)
-        ctx.count("final_unrecorded_designs")
+        # ---------------------------------------------------------------- write-back: sizes
+        rec_all = log + [final]
+        for k, rec in enumerate(rec_all):
+            for i, st in enumerate(rec):
+                ctx.count("writeback_slices_compared")
+                if st.size != sizes[i]:
+                    violate("write-back/signal-size-changed", response=k, signal=i, size=int(st.size), expected=sizes[i],
+                            at_return=k == nresp)
+        if any(m.startswith("write-back/signal-size") for m in seen):
+            return {"key": "size-changed", "nontrivial": True, "obs": {"responses": nresp}}
+        D = [np.concatenate([np.ravel(st) for st in rec]) for rec in log]
+        xf = np.concatenate([np.ravel(st) for st in final])
+        extra = not np.array_equal(xf, D[-1])
+        if extra:
+            D.append(xf)
+            ctx.count("final_unrecorded_designs")
 
-    # ---------------------------------------------------------------- per produced design
-    nvol = nbox = nfam = npos = 0
-    for k in range(len(D) - 1):
-        p, q = D[k], D[k + 1]
-        recorded = k + 1 < nresp
-        ctx.count("designs_checked")
-        if not np.all(np.isfinite(q)):
-            violate("design-not-finite", step=k, design=q)
-            break
-        # bounds (exact)
-        ctx.count("entries_bounds", n)
-        if np.any(q < lo):
-            j = int(np.argmax(lo - q))
-            violate("bounds/design-below-xmin", step=k, entry=j, signal=int(np.searchsorted(cum, j, side="right") - 1),
-                    value=float(q[j]), xmin=float(lo[j]), recorded_at_response=recorded)
-        if np.any(q > hi):
-            j = int(np.argmax(q - hi))
-            violate("bounds/design-above-xmax", step=k, entry=j, signal=int(np.searchsorted(cum, j, side="right") - 1),
-                    value=float(q[j]), xmax=float(hi[j]), recorded_at_response=recorded)
-        # move limit
-        ctx.count("steps_move")
-        exc = np.abs(q - p) - move - 1e-15 * (np.abs(p) + move)
-        if np.any(exc > 0):
-            j = int(np.argmax(exc))
-            violate("move-limit/step-exceeds-move-limit", step=k, entry=j,
-                    signal=int(np.searchsorted(cum, j, side="right") - 1), previous=float(p[j]), new=float(q[j]),
-                    move=move)
-        # consecutive evaluated designs differ (a further response is only reached through a step >= tolx)
-        if recorded and np.array_equal(p, q) and np.any(p != 0):
-            violate("write-back/design-unchanged-between-responses", step=k, design=q)
-        # volume and slice-wise write-back against the reference OC family
-        if np.any(p < lo) or np.any(p > hi):
-            continue                                   # previous design already refuted
-        _, g = _ref_fg(P, p)
-        if np.any(g > 1e-15):
-            npos += 1
-        gc = np.minimum(g, 0.0)
-        lower, upper = np.maximum(lo, p - move), np.minimum(hi, p + move)
-        delta = 1e-12 * (1.0 + float(np.sum(np.abs(upper))))
-        if not (float(np.sum(lower)) - delta <= Vt <= float(np.sum(upper)) + delta):
-            nbox += 1
-            continue
-        fam = _Family(p * np.sqrt(-gc), lower, upper)
-        br = fam.bracket(Vt, delta, tol, l1, l2)
-        if br is None:
-            nfam += 1
-            if np.all(g < 0) and np.all(p > 0):         # only the multiplier range [l1init, l2init] is in the way
-                ctx.count("steps_volume_multiplier_outside_l1init_l2init")
-            continue
-        nvol += 1
-        xs, xl, lam_s, lam_l = br
-        vq = float(np.sum(q))
-        vol_ok = True
-        if vq > float(np.sum(xl)) + delta:
-            vol_ok = False
-            violate("volume/exceeds-target-beyond-bisection-tolerance", step=k, volume=vq, target=Vt,
-                    upper_bound=float(np.sum(xl)), lam_interval=[lam_s, lam_l], l1l2tol=tol, previous=p, new=q)
-        if vq < float(np.sum(xs)) - delta:
-            vol_ok = False
-            violate("volume/below-reachable-target-beyond-bisection-tolerance", step=k, volume=vq, target=Vt,
-                    lower_bound=float(np.sum(xs)), lam_interval=[lam_s, lam_l], l1l2tol=tol, previous=p, new=q)
-        # slice-wise: every signal holds its slice of the step (a wrong total is already reported above)
-        eps = 1e-12 * (1.0 + np.abs(q))
-        bad = (q > xl + eps) | (q < xs - eps)
-        ctx.count("oc_step_components_compared", n)
-        if vol_ok and np.any(bad):
-            j = int(np.argmax(np.maximum(q - xl, xs - q)))
-            i = int(np.searchsorted(cum, j, side="right") - 1)
-            violate("write-back/signal-state-outside-its-slice-of-the-oc-step", step=k, signal=i, entry=j,
-                    state=q[cum[i]:cum[i + 1]], slice_of_oc_step_between=[xs[cum[i]:cum[i + 1]], xl[cum[i]:cum[i + 1]]],
-                    previous_state=p[cum[i]:cum[i + 1]], volume=vq, target=Vt,
-                    signals_bit_identical_to_previous=[ii for ii in range(nsig)
-                                                       if np.array_equal(q[cum[ii]:cum[ii + 1]], p[cum[ii]:cum[ii + 1]])],
-                    fits_after_reordering=_perm_explains(q, xs, xl, eps))
-    ctx.count("steps_volume_judged", nvol)
-    ctx.count("steps_volume_box_unreachable", nbox)
-    ctx.count("steps_volume_family_unreachable", nfam)
-    ctx.count("steps_positive_gradient", npos)
-
-    # ---------------------------------------------------------------- convergence on sum c_i/x_i
-    conv, over_max = "n/a", None
-    if kind == "invsum":
-        xe = D[-1]
-        ceff = P["c"] / P["a"]
-        fam = _Family(np.sqrt(ceff), lo, hi)
-        delta = 1e-12 * (1.0 + shi)
-        limited = len(D) >= 2 and bool(np.any(np.abs(D[-1] - D[-2]) >= move * (1 - 1e-9)))
-        slack = None
-        if Vt < slo - delta:
-            conv = "infeasible-volume"
-        elif extra:                                    # budget exhausted, last step written but not evaluated
-            if not limited:
-                slack = 0.0
-            elif hk == "conv":
-                conv = "violated"
-                violate("convergence/still-move-limited-after-iteration-budget", iterations=nresp, move=move,
-                        x0=x0, final=xe, budget=budget)
-            else:
-                conv = "history-too-short"
-        else:                                          # stopped by a criterion
-            s_ = tolx * float(np.linalg.norm(xe))
-            if s_ >= move:
-                conv = "tolx-not-below-move"
-            elif tolf == 0.0 or not limited:
-                slack = s_
-            else:
-                conv = "stopped-by-tolf-while-move-limited"
-        if slack is not None:
+        # ---------------------------------------------------------------- per produced design
+        nvol = nbox = nfam = npos = 0
+        for k in range(len(D) - 1):
+            p, q = D[k], D[k + 1]
+            recorded = k + 1 < nresp
+            ctx.count("designs_checked")
+            if not np.all(np.isfinite(q)):
+                violate("design-not-finite", step=k, design=q)
+                break
+            # bounds (exact)
+            ctx.count("entries_bounds", n)
+            if np.any(q < lo):
+                j = int(np.argmax(lo - q))
+                violate("bounds/design-below-xmin", step=k, entry=j, signal=int(np.searchsorted(cum, j, side="right") - 1),
+                        value=float(q[j]), xmin=float(lo[j]), recorded_at_response=recorded)
+            if np.any(q > hi):
+                j = int(np.argmax(q - hi))
+                violate("bounds/design-above-xmax", step=k, entry=j, signal=int(np.searchsorted(cum, j, side="right") - 1),
+                        value=float(q[j]), xmax=float(hi[j]), recorded_at_response=recorded)
+            # move limit
+            ctx.count("steps_move")
+            exc = np.abs(q - p) - move - 1e-15 * (np.abs(p) + move)
+            if np.any(exc > 0):
+                j = int(np.argmax(exc))
+                violate("move-limit/step-exceeds-move-limit", step=k, entry=j,
+                        signal=int(np.searchsorted(cum, j, side="right") - 1), previous=float(p[j]), new=float(q[j]),
+                        move=move)
+            # consecutive evaluated designs differ (a further response is only reached through a step >= tolx)
+            if recorded and np.array_equal(p, q) and np.any(p != 0):
+                violate("write-back/design-unchanged-between-responses", step=k, design=q)
+            # volume and slice-wise write-back against the reference OC family
+            if np.any(p < lo) or np.any(p > hi):
+                continue                                   # previous design already refuted
+            _, g = _ref_fg(P, p)
+            if np.any(g > 1e-15):
+                npos += 1
+            gc = np.minimum(g, 0.0)
+            lower, upper = np.maximum(lo, p - move), np.minimum(hi, p + move)
+            delta = 1e-12 * (1.0 + float(np.sum(np.abs(upper))))
+            if not (float(np.sum(lower)) - delta <= Vt <= float(np.sum(upper)) + delta):
+                nbox += 1
+                continue
+            fam = _Family(p * np.sqrt(-gc), lower, upper)
             br = fam.bracket(Vt, delta, tol, l1, l2)
             if br is None:
-                conv = "multiplier-outside-range"
-            else:
-                xs, xl, lam_s, lam_l = br
-                eps = 1e-12 * (1.0 + np.abs(xe)) + slack
-                ctx.count("conv_runs_judged")
-                ctx.count("conv_components", n)
-                bad = (xe > xl + eps) | (xe < xs - eps)
-                conv = "held"
-                if np.any(bad):
+                nfam += 1
+                if np.all(g < 0) and np.all(p > 0):         # only the multiplier range [l1init, l2init] is in the way
+                    ctx.count("steps_volume_multiplier_outside_l1init_l2init")
+                continue
+            nvol += 1
+            xs, xl, lam_s, lam_l = br
+            vq = float(np.sum(q))
+            vol_ok = True
+            if vq > float(np.sum(xl)) + delta:
+                vol_ok = False
+                violate("volume/exceeds-target-beyond-bisection-tolerance", step=k, volume=vq, target=Vt,
+                        upper_bound=float(np.sum(xl)), lam_interval=[lam_s, lam_l], l1l2tol=tol, previous=p, new=q)
+            if vq < float(np.sum(xs)) - delta:
+                vol_ok = False
+                violate("volume/below-reachable-target-beyond-bisection-tolerance", step=k, volume=vq, target=Vt,
+                        lower_bound=float(np.sum(xs)), lam_interval=[lam_s, lam_l], l1l2tol=tol, previous=p, new=q)
+            # slice-wise: every signal holds its slice of the step (a wrong total is already reported above)
+            eps = 1e-12 * (1.0 + np.abs(q))
+            bad = (q > xl + eps) | (q < xs - eps)
+            ctx.count("oc_step_components_compared", n)
+            if vol_ok and np.any(bad):
+                j = int(np.argmax(np.maximum(q - xl, xs - q)))
+                i = int(np.searchsorted(cum, j, side="right") - 1)
+                violate("write-back/signal-state-outside-its-slice-of-the-oc-step", step=k, signal=i, entry=j,
+                        state=q[cum[i]:cum[i + 1]], slice_of_oc_step_between=[xs[cum[i]:cum[i + 1]], xl[cum[i]:cum[i + 1]]],
+                        previous_state=p[cum[i]:cum[i + 1]], volume=vq, target=Vt,
+                        signals_bit_identical_to_previous=[ii for ii in range(nsig)
+                                                           if np.array_equal(q[cum[ii]:cum[ii + 1]], p[cum[ii]:cum[ii + 1]])],
+                        fits_after_reordering=_perm_explains(q, xs, xl, eps))
+        ctx.count("steps_volume_judged", nvol)
+        ctx.count("steps_volume_box_unreachable", nbox)
+        ctx.count("steps_volume_family_unreachable", nfam)
+        ctx.count("steps_positive_gradient", npos)
+
+        # ---------------------------------------------------------------- convergence on sum c_i/x_i
+        conv = "n/a"
+        if kind == "invsum":
+            xe = D[-1]
+            ceff = P["c"] / P["a"]
+            fam = _Family(np.sqrt(ceff), lo, hi)
+            delta = 1e-12 * (1.0 + shi)
+            limited = len(D) >= 2 and bool(np.any(np.abs(D[-1] - D[-2]) >= move * (1 - 1e-9)))
+            slack = None
+            if Vt < slo - delta:
+                conv = "infeasible-volume"
+            elif extra:                                    # budget exhausted, last step written but not evaluated
+                if not limited:
+                    slack = 0.0
+                elif hk == "conv":
                     conv = "violated"
-                    j = int(np.argmax(np.maximum(xe - xl, xs - xe)))
-                    mech = "convergence/final-design-not-at-analytic-optimum"
-                    violate(mech, entry=j, signal=int(np.searchsorted(cum, j, side="right") - 1), final=xe,
-                            optimum_between=[xs, xl], distance=float(np.max(np.maximum(xe - xl, xs - xe))),
-                            iterations=nresp, lam_interval=[lam_s, lam_l],
-                            fits_after_reordering=_perm_explains(xe, xs, xl, eps))
-                if len(D) >= 2:
-                    # evidence for the iteration budget: responses used beyond ceil(max|x0-x*|/move)
-                    over = nresp - int(math.ceil(float(np.max(np.abs(x0 - 0.5 * (xs + xl)))) / move))
-                    ctx.count("conv_iterations_over_distance:" + ("<=1" if over <= 1 else "2-3" if over <= 3 else "4-6" if over <= 6 else
-                                                                  "7-15" if over <= 15 else "16-30" if over <= 30 else ">30"))
-                    over_max = over
-        ctx.count("conv_" + conv)
+                    violate("convergence/still-move-limited-after-iteration-budget", iterations=nresp, move=move,
+                            x0=xstart, final=xe, budget=budget)
+                else:
+                    conv = "history-too-short"
+            else:                                          # stopped by a criterion
+                s_ = tolx * float(np.linalg.norm(xe))
+                if s_ >= move:
+                    conv = "tolx-not-below-move"
+                elif tolf == 0.0 or not limited:
+                    slack = s_
+                else:
+                    conv = "stopped-by-tolf-while-move-limited"
+            if slack is not None:
+                br = fam.bracket(Vt, delta, tol, l1, l2)
+                if br is None:
+                    conv = "multiplier-outside-range"
+                else:
+                    xs, xl, lam_s, lam_l = br
+                    eps = 1e-12 * (1.0 + np.abs(xe)) + slack
+                    ctx.count("conv_runs_judged")
+                    ctx.count("conv_components", n)
+                    bad = (xe > xl + eps) | (xe < xs - eps)
+                    conv = "held"
+                    if np.any(bad):
+                        conv = "violated"
+                        j = int(np.argmax(np.maximum(xe - xl, xs - xe)))
+                        mech = "convergence/final-design-not-at-analytic-optimum"
+                        violate(mech, entry=j, signal=int(np.searchsorted(cum, j, side="right") - 1), final=xe,
+                                optimum_between=[xs, xl], distance=float(np.max(np.maximum(xe - xl, xs - xe))),
+                                iterations=nresp, lam_interval=[lam_s, lam_l],
+                                fits_after_reordering=_perm_explains(xe, xs, xl, eps))
+                    if len(D) >= 2:
+                        # evidence for the iteration budget: responses used beyond ceil(max|x0-x*|/move)
+                        over = nresp - int(math.ceil(float(np.max(np.abs(xstart - 0.5 * (xs + xl)))) / move))
+                        ctx.count("conv_iterations_over_distance:" + ("<=1" if over <= 1 else "2-3" if over <= 3 else "4-6" if over <= 6 else
+                                                                      "7-15" if over <= 15 else "16-30" if over <= 30 else ">30"))
+                        over_max = over if over_max is None else max(over_max, over)
+            ctx.count("conv_" + conv)
+        tot["responses"] += nresp
+        tot["designs"] += len(D) - 1
+        tot["vol_judged"] += nvol
+        tot["final_unrecorded"] += int(extra)
+        if irun:
+            ctx.count("restarted_runs")
 
     key = "|".join([kind + ("/" + case["zg"] if case["zg"] else ""), case["topo"], bk, f"nsig{nsig}", vk,
-                    f"mv{case['move']}", hk] + ([case["via"]] if case["via"] != "direct" else []))
-    return {"key": key, "nontrivial": len(D) >= 2,
-            "obs": {"n": n, "responses": nresp, "designs": len(D), "final_unrecorded": extra, "vol_judged": nvol,
-                    "vol_box_unreachable": nbox, "vol_family_unreachable": nfam, "positive_gradient_steps": npos,
-                    "convergence": conv, "iterations_over_distance": over_max}}
+                    f"mv{case['move']}", hk] + ([case["via"]] if case["via"] != "direct" else [])
+                   + (["restart"] if case.get("runs", 1) > 1 else []))
+    return {"key": key, "nontrivial": tot["designs"] >= 1,
+            "obs": {"n": n, "runs": int(case.get("runs", 1)), "responses": tot["responses"],
+                    "designs_produced": tot["designs"], "final_unrecorded": tot["final_unrecorded"],
+                    "vol_judged": tot["vol_judged"], "convergence_last_run": conv, "iterations_over_distance": over_max}}
